@@ -428,6 +428,7 @@ let () =
           | "repl" :: rest -> handle_repl rest
           | "debug" :: rest -> handle_debug rest
           | "cli" :: rest -> handle_cli rest
+          | "tables" :: _ -> Printf.sprintf "single=%s|start=%s|hearts=%s|nan=%s" (dotted sINGLE) (dotted sTART) (dotted hEARTS) (dotted nAN_TEXT)
           | "compir" :: rest -> handle_compir rest
           | "comp" :: rest -> handle_comp rest
           | ("opt" | "optpin" as w) :: "run" :: rest -> handle_opt_run w rest
